@@ -237,21 +237,27 @@ def r2(ctx):
     okc = bool(rr) and isinstance(rr[0].value, ast.Call) and kwarg(rr[0].value, "scale") is not None and norm(kwarg(rr[0].value, "scale")) == "self.scale"
     ctx.check(okc, "C02.R2", "the recorded copy of a scoped term keeps the scale", cp.where, ctx.construct(cp, text="copy scale"), "ScopedTerm.copy must pass scale=self.scale")
     # intercept
-    ints = [st for st in walk_no_nested(b.node) if isinstance(st, ast.Assign) and isinstance(st.targets[0], ast.Subscript)
+    # the intercept column: stored under the key "Intercept" (item store, or an entry of a dict display merged into the columns)
+    ints = [(st, st.value) for st in walk_no_nested(b.node) if isinstance(st, ast.Assign) and isinstance(st.targets[0], ast.Subscript)
             and is_const(st.targets[0].slice, "Intercept")]
+    ints += [(d, v_) for d in walk_no_nested(b.node) if isinstance(d, ast.Dict) for k_, v_ in zip(d.keys, d.values) if k_ is not None and is_const(k_, "Intercept")]
     ctx.floor("C02.R2", len(ints), 1, "intercept column stores")
-    for st in ints:
+    for st, v in ints:
         ctx.look()
-        v = st.value
         ok = isinstance(v, ast.BinOp) and isinstance(v.op, ast.Mult) and "scoped_term.scale" in (norm(v.left), norm(v.right))
         other = v.right if ok and norm(v.left) == "scoped_term.scale" else (v.left if ok else None)
         ok2 = isinstance(other, ast.Call) and isinstance(other.func, ast.Attribute) and other.func.attr == "_encode_constant" \
             and other.args and is_const(other.args[0], 1)
-        ctx.check(ok and ok2, "C02.R2", "the intercept is scale * constant(1) named Intercept", b.module.line(st), ctx.construct(b, st),
+        ctx.check(ok and ok2, "C02.R2", "the intercept is scale * constant(1) named Intercept", b.module.line(st), ctx.construct(b, text="Intercept"),
                   f"intercept column is `{norm(v)[:100]}`")
         from ..util import atom_mapper, reach_condition, truth_table
-        rc = reach_condition(P, st, mention="scoped_term")
-        ctx.check(rc is not None and truth_table(rc, atom_mapper({"scoped_term.factors": 0}), 1) == (True, False), "C02.R2",
+        if isinstance(st, ast.stmt):
+            rc = reach_condition(P, st, mention="scoped_term")
+            guard_ok = rc is not None and truth_table(rc, atom_mapper({"scoped_term.factors": 0}), 1) == (True, False)
+        else:   # an arm of a conditional expression
+            from ..util import guards_of
+            guard_ok = ("scoped_term.factors", False) in guards_of(P, st)
+        ctx.check(guard_ok, "C02.R2",
                   "the intercept column is emitted exactly for the factor-less scoped term", b.module.line(st), ctx.construct(b, text="intercept guard"),
                   "the Intercept store must be guarded by `not scoped_term.factors`")
 
